@@ -31,6 +31,7 @@ UNIT = dict(
             ("sub", "R13-pin", r"\bthis\b", "self", None),
             ("sub", "R13-pin", r"\bPhaseProj::", "Phase::", 3),
             ("sub", "R9-paths", r"tokio::time::sleep", "sleep", 1),
+            ("sub", "R6-ready", r"\bself\.inner\.poll_ready\(cx\)", "self.inner.poll_ready_tr(cx, Tracked(tr))", -1),
             ("addarg", ["poll", "mark_connected", "mark_disconnected", "mark_reconnecting", "call"], TR, None),
             ("sub", "panic-unreachable", r"panic!\(\"[^\"]*\"\);", "assert(false); return Poll::Pending;", 1, ),
             # domain restriction (DESIGN §6 C16): the attempt counter never reaches u32::MAX
